@@ -137,7 +137,75 @@ def call_shape(prog, rep, fam, mi):
     rep.check(not extra, "C12.call", inst + ":kwargs", site, "no other keywords", f"unexpected keywords to scipy fit: {extra}")
 
 
+def start_values(prog, rep):
+    """The values an instance has before fitting are the optimiser's start: they must be admissible (shape and scale
+    parameters positive, everything finite) - the likelihood at a start on the boundary is -inf and the fit goes astray."""
+    from .distfam import SLOT_TABLE
+    from .strtable import evaluate
+    for fam in families(prog, include_generic=True):
+        if fam.generic:
+            fn = prog.lookup_method(fam.ci, "_set_default_parameter_values")
+            if fn is None:
+                raise AnalysisError(f"{fam.ci.qualname}._set_default_parameter_values not found")
+            rep.analysed(fn)
+            b = fam.b(fn, inline=False)
+            pcs = path_conditions(prog, fn, b)
+            sets = []  # (stmt, name term, value term, literals)
+            for st in cfg_of(fn).all_stmts():
+                if isinstance(st, ast.Expr) and isinstance(st.value, ast.Call):
+                    t = b.term(st.value, st)
+                    if t[0] == "call" and t[1] == G("setattr") and len(t[2]) == 3 and t[2][0] == SELF:
+                        sets.append((st, t[2][1], t[2][2], pcs.of(st)))
+            syms = {nm for _s, nm, _v, _l in sets if nm[0] in ("sub", "idx") or (nm[0] == "sub" and nm[2][0] == "idx")}
+            plain = [x for x in sets if x[1][0] != "fstr" and not (x[1][0] == "bin")]
+            sym = plain[0][1] if plain else None
+            rows = {}
+            for cand in ("loc", "scale", "c", "a", "s", "o", "l", "lo", "df", "kappa", "b"):
+                got = []
+                for st, nm, v, lits in plain:
+                    if nm != sym:
+                        continue
+                    ev = [evaluate(l, sym, cand) for l in lits]
+                    if None in ev:
+                        got.append(("?", st))
+                    elif all(ev):
+                        while v[0] == "ifexp":
+                            tv = evaluate(v[1], sym, cand)
+                            if tv is None:
+                                v = "?"
+                                break
+                            v = v[2] if tv else v[3]
+                        got.append((v, st))
+                rows[cand] = got
+            for cand, got in rows.items():
+                want = ("const", 0) if cand == "loc" else ("const", 1)
+                ok = len(got) == 1 and got[0][0] == want
+                rep.check(ok, "C12.start", f"{fn.qualname}:{cand}", fn.where(got[0][1]) if got else fn.where(),
+                          f"a parameter named '{cand}' starts at {want[1]}",
+                          f"a scipy parameter named '{cand}' must start at {want[1]} (shapes and scale at 1, only loc at 0: a shape or scale of 0 is not admissible); "
+                          f"found {[show(g[0])[:30] if g[0] != '?' else 'undecided condition' for g in got]}")
+            continue
+        init = fam.m["__init__"]
+        mf = fam.m["_fit_mle"]
+        if not any(isinstance(n_, ast.Call) and isinstance(n_.func, ast.Attribute) and n_.func.attr == "fit" for n_ in ast.walk(mf.node)):
+            continue  # closed-form estimate: nothing is started from the current values
+        rep.analysed(init)
+        dflt = init.defaults()
+        table = SLOT_TABLE.get(fam.name, (None, {}))[1]
+        positive = {par for _slot, (kind, par) in table.items() if kind in ("id", "recip") and _slot != "loc" and isinstance(par, str)}
+        for p_ in fam.param_names:
+            d = dflt.get(p_)
+            val = d.value if isinstance(d, ast.Constant) else None
+            if isinstance(d, ast.UnaryOp) and isinstance(d.op, ast.USub) and isinstance(d.operand, ast.Constant):
+                val = -d.operand.value
+            ok = isinstance(val, (int, float)) and not isinstance(val, bool) and val == val and abs(val) != float("inf") and (p_ not in positive or val > 0)
+            rep.check(ok, "C12.start", f"{fam.ci.qualname}.__init__:{p_}", init.where(), f"default {p_}={val} is an admissible start",
+                      f"the default of {p_} (the start value of a fit) must be a finite constant{' > 0' if p_ in positive else ''}, found {ast.unparse(d) if d is not None else None}")
+
+
 def run(prog, rep):
+    rep.part(start_values, prog, rep)
+    rep.expect_min("C12.start", 24)
     rep.explanation = EXPL + ' C12.fixed: the keyword/slot obligations of C11.mle filed under this property (a fixed value enters the likelihood through its own slot and mapping).'
     rep.assumptions = ASSUME
     rep.part(dispatch, prog, rep)
